@@ -59,13 +59,25 @@ def _gen(ast, rp=False):
         return ("exc", type(e).__name__)
 
 
-def eval_text(text, counters=None):
+# file names as parse() argument and (in C string spelling) in a linemarker in front of the text: coordinates must
+# survive every rebuild exactly, whatever the name looks like (drive letters, UNC paths, quotes, blanks, non-ASCII, empty)
+ODD_NAMES = ["C:\\src\\unit.c", "\\\\buildsrv\\src\\unit.c", "\\\\\\\\x\\\\y.c", "dir with blank/a b.c", "caf\u00e9/\u4e2d.c", "q\"uote.c", "",
+             "a\\", "%s{0}.c", "<stdin>", "x:1:2", "tab\there.c", "'single'.c", "../up/../f.c", "trailing\\\\"]
+
+
+def _cstr(name):
+    return '"' + name.replace("\\", "\\\\").replace('"', '\\"') + '"'
+
+
+def eval_text(text, counters=None, filename="orig.c", marker=None):
     S = sut.load()
+    if marker is not None:
+        text = f"# 7 {_cstr(marker)}\n" + text
     try:
-        ast = S.CParser().parse(text, "orig.c")
+        ast = S.CParser().parse(text, filename)
     except Exception:  # noqa: BLE001
         return None, []
-    case = {"text": text}
+    case = {"text": text, "filename": filename}
     vs = []
     base = nf(ast, coords=False)
     basec = nf(ast, coords=True)
@@ -163,7 +175,12 @@ def run_shard(spec):
         else:
             _, mus = mutate.mutate(rnd, rnd.choice(small), rnd.choice([1, 2]))
             text = mutate.join(mus)
-        n, vs = eval_text(text, res["counters"])
+        if i % 3 == 1:
+            n, vs = eval_text(text, res["counters"], filename=ODD_NAMES[(i // 3) % len(ODD_NAMES)],
+                              marker=ODD_NAMES[(i // 3 + 5) % len(ODD_NAMES)] if i % 2 else None)
+            res["counters"]["odd_file_names"] = res["counters"].get("odd_file_names", 0) + (n is not None)
+        else:
+            n, vs = eval_text(text, res["counters"])
         if n is None:
             continue
         res["evaluations"] += 1
@@ -187,4 +204,4 @@ def summarize(results, tier, seed):
 
 
 def replay(rec):
-    return eval_text(rec["case"]["text"])[1]
+    return eval_text(rec["case"]["text"], filename=rec["case"].get("filename", "orig.c"))[1]
